@@ -284,7 +284,14 @@ def _tip_response(spec, F_loc, M_loc, q_loc=(0.0, 0.0, 0.0)):
         rg = np.array([0.0, 0.0, u[2]])
     else:
         ug, rg = u[:3], u[3:]
-    return P.T @ ug, P.T @ rg, beam
+    # internal forces are expressed in the member's own axes: element values along the member
+    forces = {}
+    for nm in ("N", "Ty", "Tz", "Mx", "My", "Mz"):
+        if nm in simu.Results_Available():
+            val = simu.Result(nm, nodeValues=False)
+            if val is not None:
+                forces[nm] = np.asarray(val, float).ravel()
+    return P.T @ ug, P.T @ rg, forces
 
 
 def check_beam(case, rec):
@@ -302,10 +309,18 @@ def check_beam(case, rec):
     if dim == 2:
         q[2] = 0.0
     rec.label(f"beam:{kind}:{spec['elemType']}:{dim}d", "lineload" if any(q) else "tip_loads_only")
-    ul, rl, beam = _tip_response(spec, F, Mo, q)
+    ul, rl, forces = _tip_response(spec, F, Mo, q)
     ref = dict(spec)
     ref.update(p1=[0.0, 0.0, 0.0], d=[L, 0.0, 0.0], yAxis=None)
-    ul0, rl0, _ = _tip_response(ref, F, Mo, q)
+    ul0, rl0, forces0 = _tip_response(ref, F, Mo, q)
+    # natural magnitudes from the applied loads: forces ~ |F| + |q| L + |M| / L, moments ~ that x L
+    fscale = float(np.abs(F).max() + np.abs(q).max() * L + np.abs(Mo).max() / L) + 1e-300
+    for nm in sorted(forces0):
+        if nm in forces and forces[nm].shape == forces0[nm].shape:
+            sc = fscale * (L if nm[0] == "M" else 1.0)
+            rec.close(forces[nm] - forces0[nm], sc, 1e-6, "beam_internal_forces",
+                      f"{kind} {spec['elemType']} {dim}D d={spec['d']} yAxis={spec['yAxis']}: Result('{nm}') in the member's own axes "
+                      f"{forces[nm][:3]} vs axis-aligned member {forces0[nm][:3]}", **dict(sig, name=nm))
     # one common response scale (a zero component is compared with the magnitude of the others)
     scale_u = max(np.abs(ul0).max(), np.abs(rl0).max() * L) + 1e-9
     scale_r = scale_u / L
